@@ -17,16 +17,23 @@ W = 'core::window::Window'
 PT = {'ty': 'u8', 'max': 254}      # PeriodType of the analysed build and the largest window length a constructor accepts (MAX - 1)
 
 
+class _Roles:
+    """names of Window's private fields by role (rules/wroles.py); defaults are today's names"""
+    buf, size, cursor, last, slot_fn, variant = 'buf', 'size', 'index', 's_1', 'slice_index', 'Window'
+    iters = {}
+
+
+WR = _Roles()
+
+
 def set_period_type(f):
-    adt = f.adts.get(W)
-    ty = 'u8'
-    if adt:
-        for fl in adt['variants'][0]['fields']:
-            if fl['name'] == 'size' and fl['tyj'].get('t') == 'int':
-                ty = fl['tyj']['n']
+    import wroles
     from absint import INT_RANGE
-    PT['ty'] = ty
-    PT['max'] = INT_RANGE[ty][1] - 1
+    r = wroles.window_roles(f)
+    WR.buf, WR.size, WR.cursor, WR.last, WR.slot_fn, WR.variant, WR.iters = r.buf, r.size, r.cursor, r.last, r.slot_fn, r.variant, r.iters
+    WR.roles = r
+    PT['ty'] = r.period_ty
+    PT['max'] = INT_RANGE[r.period_ty][1] - 1
 
 
 def mk_window(ex, st, nonempty, max_size=None):
@@ -41,18 +48,18 @@ def mk_window(ex, st, nonempty, max_size=None):
     index = ex.mk_int(st, PT['ty'], 0, max(hi - 1, 0))
     if nonempty:
         ex.assume_cmp(st, 'Lt', index[2], size[2], True)
-    fields = {'buf': ex.alloc(st, ('buf', size[2])), 'index': ex.alloc(st, index), 'size': ex.alloc(st, size), 's_1': ex.alloc(st, s1)}
-    return ('adt', W, frozenset(['Window']), {'Window': fields}), size[2], index[2], s1[2]
+    fields = {WR.buf: ex.alloc(st, ('buf', size[2])), WR.cursor: ex.alloc(st, index), WR.size: ex.alloc(st, size), WR.last: ex.alloc(st, s1)}
+    return ('adt', W, frozenset([WR.variant]), {WR.variant: fields}), size[2], index[2], s1[2]
 
 
 def check_invariant(ex, st, wv, size_vid, s1_vid, strict_nonempty):
     """list of broken invariant clauses for window value wv in state st"""
     bad = []
-    fl = wv[3]['Window']
-    size = st.cells[fl['size']]
-    s1 = st.cells[fl['s_1']]
-    idx = st.cells[fl['index']]
-    buf = st.cells[fl['buf']]
+    fl = wv[3][WR.variant]
+    size = st.cells[fl[WR.size]]
+    s1 = st.cells[fl[WR.last]]
+    idx = st.cells[fl[WR.cursor]]
+    buf = st.cells[fl[WR.buf]]
     if size[0] != 'int' or (size_vid is not None and size[2] != size_vid):
         bad.append('size changed')
     if s1[0] != 'int' or (s1_vid is not None and s1[2] != s1_vid):
@@ -84,13 +91,14 @@ def a04_window_invariant(ctx):
     for tr_ in f.bodies:
         if tr_.startswith('<core::window::Window<f64> as std::ops::Index<u') and tr_.endswith('>>::index'):
             methods['Index::index'] = tr_          # Index<PeriodType>: u8 / u16 / u32 / u64 by feature
-    needed = ('push', 'newest', 'oldest', 'slice_index', 'get', 'Index::index', 'is_empty', 'len', 'iter', 'iter_rev', 'new', 'from_parts', 'empty')
+    SLOT = WR.slot_fn       # the private index -> slot mapping, whatever it is called
+    needed = ('push', 'newest', 'oldest', SLOT, 'get', 'Index::index', 'is_empty', 'len', 'iter', 'iter_rev', 'new', 'from_parts', 'empty')
     for nme in needed:
         if nme not in methods:
             raise Broken('Window::%s (f64 instance) not found' % nme)
     EMPTY_OK = ('get', 'is_empty', 'len', 'iter', 'iter_rev')      # defined on empty windows (None / documented panic via closure)
     n = 0
-    for name in ('push', 'newest', 'oldest', 'slice_index', 'get', 'Index::index', 'is_empty', 'len', 'iter', 'iter_rev'):
+    for name in ('push', 'newest', 'oldest', SLOT, 'get', 'Index::index', 'is_empty', 'len', 'iter', 'iter_rev'):
         bid = methods[name]
         for nonempty in (True, False):
             if not nonempty and name not in EMPTY_OK:
@@ -136,7 +144,7 @@ def a04_window_invariant(ctx):
                     # & methods must not change anything
                     if w2 != wv and name not in ('iter', 'iter_rev'):
                         pass
-                if name == 'slice_index':
+                if name == SLOT:
                     if rv[0] == 'adt' and rv[2] is not None and 'Some' in rv[2]:
                         slot = s2.cells[rv[3]['Some']['0']]
                         if slot[0] != 'int' or not ex.prove_lt(s2, slot[2], size_vid):
@@ -168,9 +176,9 @@ def a04_window_invariant(ctx):
             if rv[0] != 'adt' or rv[1] != W:
                 r.violate(key + '|value', 'constructor does not return a Window literal', b.file, b.line)
                 continue
-            fl = rv[3]['Window']
-            size = s2.cells[fl['size']]
-            s1 = s2.cells[fl['s_1']]
+            fl = rv[3][WR.variant]
+            size = s2.cells[fl[WR.size]]
+            s1 = s2.cells[fl[WR.last]]
             bad = []
             d = ex.idef.get(s1[2]) if s1[0] == 'int' else None
             lo, hi = ex.rng(s2, size[2]) if size[0] == 'int' else (None, None)
@@ -208,7 +216,10 @@ def check_iterators(ctx, f, r, methods):
                 ex.assume_cmp(st, 'Le', isize[2], size_vid, True)
             except Infeasible:
                 continue
-            itv = ('adt', it_ty, frozenset([short]), {short: {'window': ex.alloc(st, ('ref', wc)), 'index': ex.alloc(st, iidx), 'size': ex.alloc(st, isize)}})
+            ir = WR.iters.get(it_ty)
+            if ir is None:
+                raise Broken('%s is no longer (window reference, cursor, remaining count)' % short)
+            itv = ('adt', it_ty, frozenset([short]), {short: {ir['window']: ex.alloc(st, ('ref', wc)), ir['cursor']: ex.alloc(st, iidx), ir['count']: ex.alloc(st, isize)}})
             ic = ex.alloc(st, itv)
             b = ex.body(nid)
             try:
@@ -230,7 +241,7 @@ def check_iterators(ctx, f, r, methods):
             for s2, rv in outs:
                 it2 = s2.cells[ic]
                 fl = it2[3][short]
-                ni, ns = s2.cells[fl['index']], s2.cells[fl['size']]
+                ni, ns = s2.cells[fl[ir['cursor']]], s2.cells[fl[ir['count']]]
                 if rv[0] == 'adt' and rv[2] is not None and 'Some' in rv[2] and not nonempty:
                     r.violate(key + '|yields-on-empty', '%s::next yields an element of an empty window' % short, b.file, b.line)
                 if nonempty:
@@ -255,7 +266,8 @@ def check_iterators(ctx, f, r, methods):
                 r.violate('%s|establishes|value' % short, 'Window::%s does not return an iterator literal' % ctor, b.file, b.line)
                 continue
             fl = next(iter(rv[3].values()))
-            ni, ns = s2.cells[fl['index']], s2.cells[fl['size']]
+            ir = WR.iters[it_ty]
+            ni, ns = s2.cells[fl[ir['cursor']]], s2.cells[fl[ir['count']]]
             if ni[0] != 'int' or not ex.prove_lt(s2, ni[2], size_vid):
                 r.violate('%s|establishes|index' % short, 'Window::%s starts its cursor outside the buffer' % ctor, b.file, b.line)
             if ns[0] != 'int' or not ex.prove_le(s2, ns[2], size_vid):
@@ -281,9 +293,10 @@ def a06_index_methods(ctx):
         adt = f.adts.get(ty)
         if adt is None:
             raise Broken('%s not found' % ty)
-        fields = [fl['name'] for fl in adt['variants'][0]['fields']]
-        if not all(x in fields for x in ('window', 'index', 'value')):
-            raise Broken('%s: expected fields window, index, value' % short)
+        mr = WR.roles.index_method(f, ty)
+        if mr is None:
+            raise Broken('%s: expected one Window, one integer (age) and one float (extreme value) field' % short)
+        F_W, F_AGE, F_VAL = mr['window'], mr['age'], mr['value']
         # ---- step
         ex = Exec(f)
         ex.split_bool_casts = ('core::window::',)
@@ -291,7 +304,7 @@ def a06_index_methods(ctx):
         wv, size_vid, widx, s1_vid = mk_window(ex, st, True)
         age = ex.mk_int(st, PT['ty'], 0, PT['max'] - 1)
         ex.assume_cmp(st, 'Lt', age[2], size_vid, True)
-        selfv = ('adt', ty, frozenset([short]), {short: {'window': ex.alloc(st, wv), 'index': ex.alloc(st, age), 'value': ex.alloc(st, ('float', -FM, FM, False))}})
+        selfv = ('adt', ty, frozenset([short]), {short: {F_W: ex.alloc(st, wv), F_AGE: ex.alloc(st, age), F_VAL: ex.alloc(st, ('float', -FM, FM, False))}})
         sc = ex.alloc(st, selfv)
         b = ex.body(nid)
         inp = ex.alloc(st, ('float', -FM, FM, False))
@@ -320,13 +333,13 @@ def a06_index_methods(ctx):
         for s2, rv in outs:
             me = s2.cells[sc]
             fl = me[3][short]
-            w2 = s2.cells[fl['window']]
+            w2 = s2.cells[fl[F_W]]
             for bmsg in check_invariant(ex, s2, w2, size_vid, s1_vid, True):
                 r.violate('%s|window-invariant|%s' % (key, bmsg.split(' (')[0]), '%s::next leaves its window outside the representation invariant: %s' % (short, bmsg), b.file, b.line)
-            a2 = s2.cells[fl['index']]
+            a2 = s2.cells[fl[F_AGE]]
             if a2[0] != 'int' or not ex.prove_lt(s2, a2[2], size_vid):
                 r.violate(key + '|age-not-below-length', '%s::next can leave its age at %s, not provably < window length (%s): the next step may overflow / Aroon leaves [0, 1]' % (
-                    short, ex.describe(s2, a2), ex.describe(s2, s2.cells[w2[3]['Window']['size']])), b.file, b.line)
+                    short, ex.describe(s2, a2), ex.describe(s2, s2.cells[w2[3][WR.variant][WR.size]])), b.file, b.line)
             if rv[0] != 'int' or not ex.prove_lt(s2, rv[2], size_vid):
                 r.violate(key + '|result-not-below-length', '%s::next can return %s, not provably < window length' % (short, ex.describe(s2, rv)), b.file, b.line)
         r.sample({'method': short + '::next', 'outcomes': len(outs), 'panic sites refuted': ex.discharged, 'post': 'age < window length, result < window length'})
@@ -351,9 +364,9 @@ def a06_index_methods(ctx):
                     continue
                 ok_seen = True
                 fl = me[3][short]
-                w2 = s2.cells[fl['window']]
-                a2 = s2.cells[fl['index']]
-                size = s2.cells[w2[3]['Window']['size']]
+                w2 = s2.cells[fl[F_W]]
+                a2 = s2.cells[fl[F_AGE]]
+                size = s2.cells[w2[3][WR.variant][WR.size]]
                 if size[0] != 'int' or ex.rng(s2, size[2])[0] < 1:
                     r.violate(key + '|empty-window', '%s::new can build an instance over an empty window' % short, b.file, b.line)
                 elif a2[0] != 'int' or not ex.prove_lt(s2, a2[2], size[2]):
@@ -402,14 +415,17 @@ def a07_deserialize_accepts_valid(ctx):
             if hv[0] != 'adt':
                 raise Broken('decoded helper is not a struct')
             fl = next(iter(hv[3].values()))
-            if 'buf' not in fl or 'index' not in fl:
-                raise Broken('helper struct lacks buf / index')
+            hb_ = [k for k, c_ in fl.items() if st_.cells[c_][0] == 'buf' or st_.cells[c_][0] == 'top']
+            hi_ = [k for k, c_ in fl.items() if st_.cells[c_][0] == 'int']
+            if len(hb_) != 1 or len(hi_) != 1 or len(fl) != 2:
+                raise Broken('the decoded helper is not (buffer, index)')
+            H_BUF, H_IDX = hb_[0], hi_[0]
             ln = ex_.mk_int(st_, 'usize', lo, hi)
             idx = ex_.mk_int(st_, PT['ty'], 0, max(hi - 1, 0))
             if hi > 0:
                 ex_.assume_cmp(st_, 'Lt', idx[2], ln[2], True)      # the empty window is written as (buf = [], index = 0)
-            st_.cells[fl['buf']] = ('buf', ln[2])
-            st_.cells[fl['index']] = idx
+            st_.cells[fl[H_BUF]] = ('buf', ln[2])
+            st_.cells[fl[H_IDX]] = idx
             held['len'], held['idx'] = ln[2], idx[2]
             return ('adt', resv[1], frozenset(['Ok']), resv[3])
         ex.callee_overrides = {helper_def: supply}
@@ -429,10 +445,10 @@ def a07_deserialize_accepts_valid(ctx):
                 variants |= set(rv[2])
                 if 'Ok' in rv[2]:
                     wv = s2.cells[rv[3]['Ok']['0']]
-                    if wv[0] == 'adt' and 'Window' in wv[3]:
-                        fl = wv[3]['Window']
-                        size = s2.cells[fl['size']]
-                        cur = s2.cells[fl['index']]
+                    if wv[0] == 'adt' and WR.variant in wv[3]:
+                        fl = wv[3][WR.variant]
+                        size = s2.cells[fl[WR.size]]
+                        cur = s2.cells[fl[WR.cursor]]
                         if not (size[0] == 'int' and (size[2] == held['len'] or ex.eval_cmp(s2, 'Eq', size[2], held['len']) is True)):
                             r.violate(key + '|size', 'the rebuilt window does not have size == decoded buffer length', b.file, b.line)
                         # which slot the cursor names (the decoded index, or 0 after a normalising rotation) is the representation clause of S03
